@@ -77,6 +77,7 @@ type Enc struct {
 	preserved     []modTarget // state preserved across unbounded-frame calls (kind loc or elems)
 	revealed      map[string]bool
 	revealDone    map[string]bool
+	epochCounter  int
 	failed        error
 }
 
@@ -88,24 +89,44 @@ type deferred struct {
 }
 
 type State struct {
-	reach      Val
-	cells      map[*ssa.Alloc]Val
-	heaps      map[string]Val
-	next       Val
-	defers     []deferred
-	iters      map[ssa.Value]Val // visited sets of map iterators
-	lazy       map[string]bool   // heaps modified by an enclosing loop but not materialised at its head
-	lazyAll    bool
-	lazyScalar bool
+	reach  Val
+	cells  map[*ssa.Alloc]Val
+	heaps  map[string]Val
+	next   Val
+	defers []deferred
+	iters  map[ssa.Value]Val // visited sets of map iterators
+	epochs []*lazyEpoch      // havoc events whose not-yet-materialised heaps get one deterministic fresh constant each
+}
+
+// lazyEpoch: a havoc event (loop head, call with an unbounded frame). A heap that is first
+// touched afterwards, and that the event covers, is the constant <name>_ep<id> - the same one
+// in every state derived from the event, so branches agree.
+type lazyEpoch struct {
+	id     int
+	all    bool
+	scalar bool
+	names  map[string]bool
+}
+
+func (ep *lazyEpoch) covers(name string) bool {
+	if strings.HasPrefix(name, "G_held") || strings.HasPrefix(name, "G_rheld") {
+		return ep.names[name]
+	}
+	return ep.all || ep.names[name] || (ep.scalar && strings.HasPrefix(name, "H_"))
+}
+
+func (s *State) epochFor(name string) *lazyEpoch {
+	for i := len(s.epochs) - 1; i >= 0; i-- {
+		if s.epochs[i].covers(name) {
+			return s.epochs[i]
+		}
+	}
+	return nil
 }
 
 func (s *State) clone() *State {
-	n := &State{reach: s.reach, next: s.next, cells: map[*ssa.Alloc]Val{}, heaps: map[string]Val{}, iters: map[ssa.Value]Val{}, lazy: map[string]bool{}}
-	for k := range s.lazy {
-		n.lazy[k] = true
-	}
-	n.lazyAll = s.lazyAll
-	n.lazyScalar = s.lazyScalar
+	n := &State{reach: s.reach, next: s.next, cells: map[*ssa.Alloc]Val{}, heaps: map[string]Val{}, iters: map[ssa.Value]Val{}}
+	n.epochs = append([]*lazyEpoch{}, s.epochs...)
 	for k, v := range s.cells {
 		n.cells[k] = v
 	}
@@ -202,12 +223,12 @@ func (e *Enc) heap(st *State, name string, s Sort) Val {
 	if h, ok := st.heaps[name]; ok {
 		return h
 	}
-	if st.lazy[name] || (st.lazyScalar && strings.HasPrefix(name, "H_")) || (st.lazyAll && !strings.HasPrefix(name, "G_held") && !strings.HasPrefix(name, "G_rheld")) {
-		// first use inside a loop that modifies this heap: arbitrary value at the loop head
+	if ep := st.epochFor(name); ep != nil {
+		// first use after a havoc event that covers this heap
 		if _, ok := e.base[name]; !ok {
 			e.base[name] = e.declare(name+"_0", s)
 		}
-		h := e.fresh(name+"_lz", s)
+		h := e.declare(fmt.Sprintf("%s_ep%d", name, ep.id), s)
 		st.heaps[name] = h
 		return h
 	}
@@ -762,17 +783,15 @@ func (e *Enc) merge(edges []edgeState, label string) *State {
 	}
 	r := e.fresh("r_"+label, SBool)
 	e.fact(Eq(r, Or(conds...)))
-	out := &State{reach: r, cells: map[*ssa.Alloc]Val{}, heaps: map[string]Val{}, iters: map[ssa.Value]Val{}, lazy: map[string]bool{}}
-	for _, ed := range edges {
-		for k := range ed.st.lazy {
-			out.lazy[k] = true
+	out := &State{reach: r, cells: map[*ssa.Alloc]Val{}, heaps: map[string]Val{}, iters: map[ssa.Value]Val{}}
+	// the epochs common to all branches stay in force (a common prefix: branches share their history)
+	out.epochs = append([]*lazyEpoch{}, edges[0].st.epochs...)
+	for _, ed := range edges[1:] {
+		n := 0
+		for n < len(out.epochs) && n < len(ed.st.epochs) && out.epochs[n] == ed.st.epochs[n] {
+			n++
 		}
-		if ed.st.lazyAll {
-			out.lazyAll = true
-		}
-		if ed.st.lazyScalar {
-			out.lazyScalar = true
-		}
+		out.epochs = out.epochs[:n]
 	}
 	mergeVals := func(prefix string, vals []Val) Val {
 		same := true
@@ -839,8 +858,8 @@ func (e *Enc) merge(edges []edgeState, label string) *State {
 		for _, ed := range edges {
 			v, ok := ed.st.heaps[k]
 			if !ok {
-				if ed.st.lazy[k] || ed.st.lazyAll || (ed.st.lazyScalar && strings.HasPrefix(k, "H_")) {
-					v = e.fresh(k+"_lz", e.base[k].S)
+				if ep := ed.st.epochFor(k); ep != nil {
+					v = e.declare(fmt.Sprintf("%s_ep%d", k, ep.id), e.base[k].S)
 				} else {
 					v = e.base[k]
 				}
